@@ -446,8 +446,10 @@ def pre_merge_config(rng, layouts, case, how, exp_mask):
     cfg["lpren"] = n
     cfg["rpren"] = n if equal else rng.choice([x for x in (2, 3, 4) if x != n])
     if equal and rng.random() < 0.5:                 # the counts the operands already have
-        cfg["llay"] = list(rng.choice([x for x in layouts[len(case["L"])] if len(x) == n]))
-        cfg["rlay"] = list(rng.choice([x for x in layouts[len(case["R"])] if len(x) == n]))
+        for side, rows in (("llay", case["L"]), ("rlay", case["R"])):
+            same = [x for x in layouts[len(rows)] if len(x) == n]
+            if same:
+                cfg[side] = list(rng.choice(same))
     return cfg
 
 
@@ -879,14 +881,14 @@ def run(ctx):
     ctx.extra["cases_enumerated_by_tlc"] = len(cases)
     q = ctx.quick
     dev = float(__import__("os").environ.get("VERIF_C39_DEV", "1"))        # development only: shrink the dask side
-    quota = {"merge:cc": 550 if q else 2200, "merge:kk": 300 if q else 1200, "merge:pre": 500 if q else 2500,
-             "merge:ii": 250 if q else 1000, "merge:ii:sorted": 400 if q else 1500,
-             "merge:ic": 200 if q else 900, "merge:ci": 200 if q else 900,
-             "concat": 300 if q else 3000, "concat1": 100 if q else 900, "asof": 150 if q else 2500}
+    quota = {"merge:cc": 400 if q else 2200, "merge:kk": 250 if q else 1200, "merge:pre": 450 if q else 2500,
+             "merge:ii": 200 if q else 1000, "merge:ii:sorted": 300 if q else 1500,
+             "merge:ic": 150 if q else 900, "merge:ci": 150 if q else 900,
+             "concat": 250 if q else 3000, "concat1": 80 if q else 900, "asof": 120 if q else 2500}
     quota = {k: max(20, int(v * dev)) for k, v in quota.items()}
-    quota["asof:empties"] = 3 if q else 12           # per (mode, direction, by, allow_exact_matches, tolerance): never sampled out
+    quota["asof:empties"] = 2 if q else 12           # per (mode, direction, by, allow_exact_matches, tolerance): never sampled out
     items = plan_items(ctx, cases, quota, 1 if q else "all")
-    items += random_items(ctx.rng, 150 if q else 2500)
+    items += random_items(ctx.rng, 120 if q else 2500)
     _tick(ctx, "planned %d items from %d cases" % (len(items), len(cases)))
     del cases
     bad, done, skips = check_items(ctx, items, "recorded-calls")
